@@ -8,6 +8,14 @@ BASELINE = ("cd /repo && /venv/bin/python -m pytest -ra -q -p no:cacheprovider -
 
 # id -> (category, technique, text, note, design_ref)
 CHECKS = {
+    "C01": ("exploration",
+            "property-based testing (Hypothesis) against a SymPy-derived reference model; pointwise Lie-derivative oracle for first integrals",
+            "Generated (mu log-uniform to 1e-9 + catalogue, states incl. spatial and near-primary, random Phi) through the field/Jacobian/variational "
+            "kernels, the System-level compiled closures and System.propagate for every method/order/direction. Oracles: SymPy-differentiated field and "
+            "Jacobian, Richardson finite differences of the library's own field, F@Phi for random Phi, d/dt of every reported energy/Jacobi formula along "
+            "the library's own field, and energy constancy along produced trajectories. Sampling over R^6 x (0,0.5], not a proof.",
+            "Trusts SymPy/NumPy/SciPy; tolerances are rounding/conditioning formulas (see vf/oracle/cr3bp.py); states within 1e-3 of a primary excluded.",
+            "DESIGN.md §4 C01"),
     "C19": ("exploration",
             "property-based testing (Hypothesis) with brute-force and exact-rational geometric oracle",
             "Generated cloud pairs / thresholds / segment pairs (lattice ties, parallel, collinear, zero-length, near-parallel) through "
